@@ -12,3 +12,6 @@ Definition nblocks (len : nat) : nat := (len + 15) / 16.
 
 Definition ctr_keystream (W : N) (E : bytes -> bytes) (iv : bytes) (len : nat) : bytes :=
   firstn len (flat_map (fun i => E (ctr_block W iv (N.of_nat i))) (seq 0 (nblocks len))).
+
+(* The block sequence of the specification's counter mode (width 128) and of a narrower counter agree
+   as long as the low word does not wrap inside the message; when it wraps they differ. *)
